@@ -1,1 +1,490 @@
+/-
+  Helper lemmas for C13 / C19 / C20: the loader state machine (`Cctz.Loader`).
+  * `Step` : the transition relation of `step`, one constructor per branch (`step_Step`).
+  * `Inv`  : the global invariant; `inv_init`, `inv_step`, `inv_run`.
+-/
 import Cctz.Model.Loader
+
+namespace Cctz.Loader
+open Cctz Cctz.Bytes
+
+/-! ## basic facts -/
+
+theorem isUtc_isFixed {n : Name} (h : isUtcName n = true) : isFixedName n = true := by
+  unfold isUtcName at h; unfold isFixedName
+  cases hf : Fixed.fromName n with
+  | none => rw [hf] at h; exact absurd h (by decide)
+  | some v => rfl
+
+theorem isFixed_false_isUtc {n : Name} (h : isFixedName n = false) : isUtcName n = false := by
+  cases hu : isUtcName n with
+  | false => rfl
+  | true => rw [isUtc_isFixed hu] at h; exact absurd h (by decide)
+
+theorem lookup_snoc (m : List (Name × Ident)) (k n : Name) (v : Ident) :
+    List.lookup n (m ++ [(k, v)]) =
+      match List.lookup n m with
+      | some x => some x
+      | none => if n = k then some v else none := by
+  rw [List.lookup_append]
+  cases h : List.lookup n m with
+  | some x => rfl
+  | none =>
+    simp only [List.lookup_cons, List.lookup_nil, Option.none_or]
+    by_cases e : n = k
+    · subst e; simp
+    · have : (n == k) = false := by simpa using e
+      simp [this, e]
+
+theorem lookup_snoc_of_some {m : List (Name × Ident)} {k n : Name} {v x : Ident}
+    (h : List.lookup n m = some x) : List.lookup n (m ++ [(k, v)]) = some x := by
+  rw [lookup_snoc, h]
+
+theorem lookup_snoc_self {m : List (Name × Ident)} {k : Name} {v : Ident}
+    (h : List.lookup k m = none) : List.lookup k (m ++ [(k, v)]) = some v := by
+  rw [lookup_snoc, h]; simp
+
+theorem lookup_snoc_ne {m : List (Name × Ident)} {k n : Name} {v : Ident}
+    (h : n ≠ k) : List.lookup n (m ++ [(k, v)]) = List.lookup n m := by
+  rw [lookup_snoc]; cases List.lookup n m <;> simp [h]
+
+/-- what a lookup in the extended map can be -/
+theorem lookup_snoc_cases {m : List (Name × Ident)} {k n : Name} {v x : Ident}
+    (hk : List.lookup k m = none)
+    (h : List.lookup n (m ++ [(k, v)]) = some x) :
+    List.lookup n m = some x ∨ (n = k ∧ x = v) := by
+  by_cases e : n = k
+  · subst e; rw [lookup_snoc_self hk] at h; right; exact ⟨rfl, (Option.some.inj h).symm⟩
+  · rw [lookup_snoc_ne e] at h; exact Or.inl h
+
+/-! ## the transition relation -/
+
+inductive Step (w : World) (s : LState) (τ : Nat) : LState → Prop
+  | idle : s.threads[τ]? = none → Step w s τ s
+  | doneNoop (t : Thread) (ok : Bool) (id : Ident) :
+      s.threads[τ]? = some t → t.pc = .done ok id → Step w s τ s
+  | initUtc (t : Thread) : s.threads[τ]? = some t → t.pc = .init → isUtcName t.name = true →
+      Step w s τ (setThread s τ { t with pc := .done true .utc })
+  | initHit (t : Thread) (id : Ident) : s.threads[τ]? = some t → t.pc = .init →
+      isUtcName t.name = false → List.lookup t.name s.map = some id →
+      Step w s τ (setThread s τ { t with pc := .done (id != .utc) id })
+  | initMiss (t : Thread) : s.threads[τ]? = some t → t.pc = .init →
+      isUtcName t.name = false → List.lookup t.name s.map = none →
+      Step w s τ (setThread s τ { t with pc := .missed })
+  | missedFixed (t : Thread) : s.threads[τ]? = some t → t.pc = .missed →
+      isFixedName t.name = true →
+      Step w s τ (setThread { s with nextGen := s.nextGen + 1 } τ { t with pc := .built true s.nextGen })
+  | missedFactory (t : Thread) : s.threads[τ]? = some t → t.pc = .missed →
+      isFixedName t.name = false →
+      Step w s τ (setThread { s with log := s.log ++ [(τ, t.name)], active := s.active ++ [τ],
+                                     maxActive := max s.maxActive (s.active ++ [τ]).length } τ
+                    { t with pc := .inFactory })
+  | factory (t : Thread) : s.threads[τ]? = some t → t.pc = .inFactory →
+      Step w s τ (setThread { s with active := s.active.filter (· != τ), nextGen := s.nextGen + 1 } τ
+                    { t with pc := .built (w.loads t.name) s.nextGen })
+  | builtHit (t : Thread) (ok : Bool) (g : Nat) (id : Ident) : s.threads[τ]? = some t →
+      t.pc = .built ok g → List.lookup t.name s.map = some id →
+      Step w s τ (setThread s τ { t with pc := .done (id != .utc) id })
+  | builtMiss (t : Thread) (ok : Bool) (g : Nat) : s.threads[τ]? = some t →
+      t.pc = .built ok g → List.lookup t.name s.map = none →
+      Step w s τ (setThread { s with map := s.map ++ [(t.name, if ok then Ident.impl g else Ident.utc)] } τ
+                    { t with pc := .done ((if ok then Ident.impl g else Ident.utc) != .utc)
+                                          (if ok then Ident.impl g else Ident.utc) })
+
+theorem step_Step (w : World) (s : LState) (τ : Nat) : Step w s τ (step w s τ) := by
+  unfold step
+  cases h : s.threads[τ]? with
+  | none => exact .idle h
+  | some t =>
+    simp only []
+    cases hp : t.pc with
+    | init =>
+      simp only []
+      by_cases hu : isUtcName t.name = true
+      · rw [if_pos hu]; exact .initUtc t h hp hu
+      · rw [if_neg hu]
+        have hu' : isUtcName t.name = false := by simpa using hu
+        cases hl : List.lookup t.name s.map with
+        | some id => exact .initHit t id h hp hu' hl
+        | none => exact .initMiss t h hp hu' hl
+    | missed =>
+      simp only []
+      by_cases hf : isFixedName t.name = true
+      · rw [if_pos hf]; exact .missedFixed t h hp hf
+      · rw [if_neg hf]
+        have hf' : isFixedName t.name = false := by simpa using hf
+        exact .missedFactory t h hp hf'
+    | inFactory => exact .factory t h hp
+    | built ok g =>
+      simp only []
+      cases hl : List.lookup t.name s.map with
+      | some id => exact .builtHit t ok g id h hp hl
+      | none => exact .builtMiss t ok g h hp hl
+    | done ok id => exact .doneNoop t ok id h hp
+
+end Cctz.Loader
+
+namespace Cctz.Loader
+open Cctz Cctz.Bytes
+
+/-! ## the invariant -/
+
+/-- what the program counter of a thread loading `n` says about the shared state -/
+def PcOk (w : World) (s : LState) (n : Name) : PC → Prop
+  | .init => True
+  | .missed => isUtcName n = false
+  | .inFactory => isFixedName n = false
+  | .built ok g => isUtcName n = false ∧ ok = seqOk w n ∧ g < s.nextGen ∧
+      ∀ m, List.lookup m s.map ≠ some (.impl g)
+  | .done ok id => (isUtcName n = true ∧ ok = true ∧ id = .utc) ∨
+      (isUtcName n = false ∧ List.lookup n s.map = some id ∧ ok = (id != .utc))
+
+structure Inv (w : World) (s : LState) : Prop where
+  mapUtc : ∀ n id, List.lookup n s.map = some id →
+    isUtcName n = false ∧ (id = .utc ↔ seqOk w n = false)
+  mapGen : ∀ n g, List.lookup n s.map = some (.impl g) → g < s.nextGen
+  mapInj : ∀ n1 n2 g, List.lookup n1 s.map = some (.impl g) →
+    List.lookup n2 s.map = some (.impl g) → n1 = n2
+  thr : ∀ (i : Nat) (t : Thread), s.threads[i]? = some t → PcOk w s t.name t.pc
+  builtInj : ∀ (i j : Nat) (ti tj : Thread) (oki okj : Bool) (g : Nat),
+    s.threads[i]? = some ti → s.threads[j]? = some tj →
+    ti.pc = .built oki g → tj.pc = .built okj g → i = j
+  log : ∀ (τ : Nat) (n : Name), (τ, n) ∈ s.log →
+    isFixedName n = false ∧ ∃ t : Thread, s.threads[τ]? = some t ∧ t.name = n
+
+theorem threads_setThread {s : LState} {τ : Nat} {t : Thread} (s0 : LState) (t' : Thread) (i : Nat)
+    (h : s.threads[τ]? = some t) (h0 : s0.threads = s.threads) :
+    (setThread s0 τ t').threads[i]? = if τ = i then some t' else s.threads[i]? := by
+  have hlt : τ < s.threads.length := by
+    rcases List.getElem?_eq_some_iff.mp h with ⟨hl, _⟩; exact hl
+  simp only [setThread, List.getElem?_set, h0, hlt, if_true]
+
+/-- the shape common to all transitions: thread `τ` gets a new pc; the map is unchanged or gets
+the entry of a `.built` thread; the log is unchanged or gets `(τ, name)` -/
+theorem inv_update {w : World} {s : LState} {τ : Nat} {t : Thread} (s0 : LState) (p' : PC)
+    (I : Inv w s) (h : s.threads[τ]? = some t)
+    (hthr : s0.threads = s.threads)
+    (hmap : s0.map = s.map ∨ ∃ ok g, t.pc = .built ok g ∧ List.lookup t.name s.map = none ∧
+      s0.map = s.map ++ [(t.name, if ok then Ident.impl g else Ident.utc)])
+    (hgen : s.nextGen ≤ s0.nextGen)
+    (hp' : PcOk w s0 t.name p')
+    (hfresh : ∀ ok g, p' = .built ok g → s.nextGen ≤ g)
+    (hlog : s0.log = s.log ∨ (s0.log = s.log ++ [(τ, t.name)] ∧ isFixedName t.name = false)) :
+    Inv w (setThread s0 τ { t with pc := p' }) := by
+  -- lookups in the new map
+  have hlk : ∀ n id, List.lookup n s0.map = some id → List.lookup n s.map = some id ∨
+      ∃ ok g, t.pc = .built ok g ∧ n = t.name ∧ id = (if ok then Ident.impl g else Ident.utc) := by
+    intro n id hn
+    rcases hmap with e | ⟨ok, g, hp, hl, e⟩
+    · rw [e] at hn; exact Or.inl hn
+    · rw [e] at hn
+      rcases lookup_snoc_cases hl hn with h1 | ⟨h1, h2⟩
+      · exact Or.inl h1
+      · exact Or.inr ⟨ok, g, hp, h1, h2⟩
+  have hlk' : ∀ n id, List.lookup n s.map = some id → List.lookup n s0.map = some id := by
+    intro n id hn
+    rcases hmap with e | ⟨ok, g, hp, hl, e⟩
+    · rw [e]; exact hn
+    · rw [e]; exact lookup_snoc_of_some hn
+  have hmapS : (setThread s0 τ { t with pc := p' }).map = s0.map := rfl
+  have hgenS : (setThread s0 τ { t with pc := p' }).nextGen = s0.nextGen := rfl
+  have hlogS : (setThread s0 τ { t with pc := p' }).log = s0.log := rfl
+  have hT := I.thr τ t h
+  constructor
+  · intro n id hn
+    rw [hmapS] at hn
+    rcases hlk n id hn with h1 | ⟨ok, g, hp, rfl, rfl⟩
+    · exact I.mapUtc n id h1
+    · rw [hp] at hT
+      refine ⟨hT.1, ?_⟩
+      rw [← hT.2.1]; cases ok <;> simp
+  · intro n g hn
+    rw [hmapS] at hn; rw [hgenS]
+    rcases hlk n _ hn with h1 | ⟨ok, g', hp, rfl, e⟩
+    · exact Nat.lt_of_lt_of_le (I.mapGen n g h1) hgen
+    · rw [hp] at hT
+      cases ok with
+      | false => simp at e
+      | true =>
+        simp only [if_true, Ident.impl.injEq] at e
+        subst e; exact Nat.lt_of_lt_of_le hT.2.2.1 hgen
+  · intro n1 n2 g h1 h2
+    rw [hmapS] at h1 h2
+    rcases hlk n1 _ h1 with a1 | ⟨ok1, g1, hp1, e1, f1⟩
+    · rcases hlk n2 _ h2 with a2 | ⟨ok2, g2, hp2, e2, f2⟩
+      · exact I.mapInj n1 n2 g a1 a2
+      · rw [hp2] at hT
+        cases ok2 with
+        | false => simp at f2
+        | true =>
+          simp only [if_true, Ident.impl.injEq] at f2
+          subst f2; exact absurd a1 (hT.2.2.2 n1)
+    · rcases hlk n2 _ h2 with a2 | ⟨ok2, g2, hp2, e2, f2⟩
+      · rw [hp1] at hT
+        cases ok1 with
+        | false => simp at f1
+        | true =>
+          simp only [if_true, Ident.impl.injEq] at f1
+          subst f1; exact absurd a2 (hT.2.2.2 n2)
+      · rw [e1, e2]
+  · intro i ti hi
+    rw [threads_setThread s0 _ i h hthr] at hi
+    by_cases e : τ = i
+    · rw [if_pos e] at hi
+      have := Option.some.inj hi; subst this
+      exact hp'
+    · rw [if_neg e] at hi
+      have hTi := I.thr i ti hi
+      cases hpi : ti.pc with
+      | init => trivial
+      | missed => rw [hpi] at hTi; exact hTi
+      | inFactory => rw [hpi] at hTi; exact hTi
+      | built okj gj =>
+        rw [hpi] at hTi
+        refine ⟨hTi.1, hTi.2.1, Nat.lt_of_lt_of_le hTi.2.2.1 hgen, ?_⟩
+        intro m hm
+        rw [hmapS] at hm
+        rcases hlk m _ hm with a | ⟨ok, g, hp, e1, f⟩
+        · exact hTi.2.2.2 m a
+        · cases ok with
+          | false => simp at f
+          | true =>
+            simp only [if_true, Ident.impl.injEq] at f
+            subst f
+            exact e (I.builtInj τ i t ti _ _ gj h hi hp hpi)
+      | done ok id =>
+        rw [hpi] at hTi
+        rcases hTi with a | ⟨a, b, c⟩
+        · exact Or.inl a
+        · exact Or.inr ⟨a, hlk' _ _ b, c⟩
+  · intro i j ti tj oki okj g hi hj hpi hpj
+    rw [threads_setThread s0 _ i h hthr] at hi
+    rw [threads_setThread s0 _ j h hthr] at hj
+    by_cases ei : τ = i
+    · by_cases ej : τ = j
+      · rw [← ei, ← ej]
+      · rw [if_pos ei] at hi; rw [if_neg ej] at hj
+        have := Option.some.inj hi; subst this
+        have f := hfresh oki g hpi
+        have hTj := I.thr j tj hj
+        rw [hpj] at hTj
+        exact absurd hTj.2.2.1 (Nat.not_lt.mpr f)
+    · by_cases ej : τ = j
+      · rw [if_neg ei] at hi; rw [if_pos ej] at hj
+        have := Option.some.inj hj; subst this
+        have f := hfresh okj g hpj
+        have hTi := I.thr i ti hi
+        rw [hpi] at hTi
+        exact absurd hTi.2.2.1 (Nat.not_lt.mpr f)
+      · rw [if_neg ei] at hi; rw [if_neg ej] at hj
+        exact I.builtInj i j ti tj oki okj g hi hj hpi hpj
+  · intro τ' n hm
+    rw [hlogS] at hm
+    have old : ∀ (τ' : Nat) (n : Name), (isFixedName n = false ∧ ∃ t : Thread, s.threads[τ']? = some t ∧ t.name = n) →
+        (isFixedName n = false ∧
+          ∃ t'' : Thread, (setThread s0 τ { t with pc := p' }).threads[τ']? = some t'' ∧ t''.name = n) := by
+      intro τ' n ⟨a, t'', b, c⟩
+      refine ⟨a, ?_⟩
+      rw [threads_setThread s0 _ τ' h hthr]
+      by_cases e : τ = τ'
+      · rw [if_pos e]
+        subst e
+        rw [h] at b; have := Option.some.inj b; subst this
+        exact ⟨_, rfl, c⟩
+      · rw [if_neg e]; exact ⟨t'', b, c⟩
+    rcases hlog with e | ⟨e, hf⟩
+    · rw [e] at hm; exact old τ' n (I.log τ' n hm)
+    · rw [e] at hm
+      rcases List.mem_append.mp hm with a | a
+      · exact old τ' n (I.log τ' n a)
+      · have := List.mem_singleton.mp a
+        have e1 : τ' = τ := congrArg Prod.fst this
+        have e2 : n = t.name := congrArg Prod.snd this
+        subst e1; subst e2
+        exact old τ' t.name ⟨hf, t, h, rfl⟩
+
+end Cctz.Loader
+
+namespace Cctz.Loader
+open Cctz Cctz.Bytes
+
+theorem inv_Step {w : World} {s s' : LState} {τ : Nat} (I : Inv w s) (st : Step w s τ s') :
+    Inv w s' := by
+  cases st with
+  | idle _ => exact I
+  | doneNoop _ _ _ _ _ => exact I
+  | initUtc t h hp hu =>
+    exact inv_update s _ I h rfl (Or.inl rfl) (Nat.le_refl _) (Or.inl ⟨hu, rfl, rfl⟩)
+      (fun _ _ e => by cases e) (Or.inl rfl)
+  | initHit t id h hp hu hl =>
+    exact inv_update s _ I h rfl (Or.inl rfl) (Nat.le_refl _) (Or.inr ⟨hu, hl, rfl⟩)
+      (fun _ _ e => by cases e) (Or.inl rfl)
+  | initMiss t h hp hu hl =>
+    exact inv_update s _ I h rfl (Or.inl rfl) (Nat.le_refl _) hu
+      (fun _ _ e => by cases e) (Or.inl rfl)
+  | missedFixed t h hp hf =>
+    have hT := I.thr τ t h
+    rw [hp] at hT
+    refine inv_update { s with nextGen := s.nextGen + 1 } _ I h rfl (Or.inl rfl) (Nat.le_succ _)
+      ⟨hT, ?_, Nat.lt_succ_self _, ?_⟩ ?_ (Or.inl rfl)
+    · simp [seqOk, hf]
+    · intro m hm; exact absurd (I.mapGen m _ hm) (Nat.lt_irrefl _)
+    · intro ok g e; cases e; exact Nat.le_refl _
+  | missedFactory t h hp hf =>
+    exact inv_update _ _ I h rfl (Or.inl rfl)
+      (Nat.le_refl _) hf (fun _ _ e => by cases e) (Or.inr ⟨rfl, hf⟩)
+  | factory t h hp =>
+    have hT := I.thr τ t h
+    rw [hp] at hT
+    have hf : isFixedName t.name = false := hT
+    refine inv_update { s with active := s.active.filter (· != τ), nextGen := s.nextGen + 1 } _ I h
+      rfl (Or.inl rfl) (Nat.le_succ _)
+      ⟨isFixed_false_isUtc hf, ?_, Nat.lt_succ_self _, ?_⟩ ?_ (Or.inl rfl)
+    · simp [seqOk, hf, isFixed_false_isUtc hf]
+    · intro m hm; exact absurd (I.mapGen m _ hm) (Nat.lt_irrefl _)
+    · intro ok g e; cases e; exact Nat.le_refl _
+  | builtHit t ok g id h hp hl =>
+    have hT := I.thr τ t h
+    rw [hp] at hT
+    exact inv_update s _ I h rfl (Or.inl rfl) (Nat.le_refl _) (Or.inr ⟨hT.1, hl, rfl⟩)
+      (fun _ _ e => by cases e) (Or.inl rfl)
+  | builtMiss t ok g h hp hl =>
+    have hT := I.thr τ t h
+    rw [hp] at hT
+    refine inv_update { s with map := s.map ++ [(t.name, if ok then Ident.impl g else Ident.utc)] } _
+      I h rfl (Or.inr ⟨ok, g, hp, hl, rfl⟩) (Nat.le_refl _) (Or.inr ⟨hT.1, ?_, rfl⟩)
+      (fun _ _ e => by cases e) (Or.inl rfl)
+    exact lookup_snoc_self hl
+
+theorem inv_step {w : World} {s : LState} (τ : Nat) (I : Inv w s) : Inv w (step w s τ) :=
+  inv_Step I (step_Step w s τ)
+
+theorem inv_init (w : World) (names : List Name) : Inv w (initState names) := by
+  constructor
+  · intro n id h; simp [initState] at h
+  · intro n g h; simp [initState] at h
+  · intro n1 n2 g h; simp [initState] at h
+  · intro i t h
+    simp only [initState, List.getElem?_map] at h
+    cases hn : names[i]? with
+    | none => rw [hn] at h; simp at h
+    | some n =>
+      rw [hn] at h
+      have := Option.some.inj h; subst this
+      trivial
+  · intro i j ti tj oki okj g hi hj hpi
+    simp only [initState, List.getElem?_map] at hi
+    cases hn : names[i]? with
+    | none => rw [hn] at hi; simp at hi
+    | some n =>
+      rw [hn] at hi
+      have := Option.some.inj hi; subst this
+      cases hpi
+  · intro τ n h; simp [initState] at h
+
+theorem inv_run {w : World} (sched : List Nat) : ∀ {s : LState}, Inv w s → Inv w (run w s sched) := by
+  induction sched with
+  | nil => intro s I; exact I
+  | cons τ rest ih => intro s I; exact ih (inv_step τ I)
+
+theorem inv_reach (w : World) (names : List Name) (sched : List Nat) :
+    Inv w (run w (initState names) sched) := inv_run sched (inv_init w names)
+
+end Cctz.Loader
+
+namespace Cctz.Loader
+open Cctz Cctz.Bytes
+
+/-! ## frame / progress facts about single steps (no invariant needed) -/
+
+theorem Step_map_mono {w : World} {s s' : LState} {τ : Nat} (st : Step w s τ s') (n : Name) (id : Ident)
+    (h : List.lookup n s.map = some id) : List.lookup n s'.map = some id := by
+  cases st with
+  | builtMiss t ok g _ _ _ => exact lookup_snoc_of_some h
+  | _ => exact h
+
+theorem step_map_mono (w : World) (s : LState) (τ : Nat) (n : Name) (id : Ident)
+    (h : List.lookup n s.map = some id) : List.lookup n (step w s τ).map = some id :=
+  Step_map_mono (step_Step w s τ) n id h
+
+/-- number of own steps a thread still needs -/
+def rank : PC → Nat
+  | .init => 4
+  | .missed => 3
+  | .inFactory => 2
+  | .built _ _ => 1
+  | .done _ _ => 0
+
+theorem set_get_self {l : List Thread} {τ : Nat} {t : Thread} (t' : Thread) (h : l[τ]? = some t) :
+    (l.set τ t')[τ]? = some t' := by
+  rcases List.getElem?_eq_some_iff.mp h with ⟨hl, _⟩
+  exact List.getElem?_set_self hl
+
+theorem Step_rank {w : World} {s s' : LState} {τ : Nat} (st : Step w s τ s') {t : Thread}
+    (h : s.threads[τ]? = some t) :
+    ∃ t', s'.threads[τ]? = some t' ∧ t'.name = t.name ∧ rank t'.pc ≤ rank t.pc - 1 := by
+  cases st with
+  | idle h0 => rw [h0] at h; cases h
+  | doneNoop t0 ok id h0 hp =>
+    rw [h0] at h; cases h
+    exact ⟨_, h0, rfl, by rw [hp]; exact Nat.zero_le _⟩
+  | initUtc t0 h0 hp _ =>
+    rw [h0] at h; cases h
+    exact ⟨_, set_get_self _ h0, rfl, by rw [hp]; simp [rank]⟩
+  | initHit t0 id h0 hp _ _ =>
+    rw [h0] at h; cases h
+    exact ⟨_, set_get_self _ h0, rfl, by rw [hp]; simp [rank]⟩
+  | initMiss t0 h0 hp _ _ =>
+    rw [h0] at h; cases h
+    exact ⟨_, set_get_self _ h0, rfl, by rw [hp]; simp [rank]⟩
+  | missedFixed t0 h0 hp _ =>
+    rw [h0] at h; cases h
+    exact ⟨_, set_get_self _ h0, rfl, by rw [hp]; simp [rank]⟩
+  | missedFactory t0 h0 hp _ =>
+    rw [h0] at h; cases h
+    exact ⟨_, set_get_self _ h0, rfl, by rw [hp]; simp [rank]⟩
+  | factory t0 h0 hp =>
+    rw [h0] at h; cases h
+    exact ⟨_, set_get_self _ h0, rfl, by rw [hp]; simp [rank]⟩
+  | builtHit t0 ok g id h0 hp _ =>
+    rw [h0] at h; cases h
+    exact ⟨_, set_get_self _ h0, rfl, by rw [hp]; simp [rank]⟩
+  | builtMiss t0 ok g h0 hp _ =>
+    rw [h0] at h; cases h
+    exact ⟨_, set_get_self _ h0, rfl, by rw [hp]; simp [rank]⟩
+
+theorem step_rank (w : World) {s : LState} {τ : Nat} {t : Thread} (h : s.threads[τ]? = some t) :
+    ∃ t', (step w s τ).threads[τ]? = some t' ∧ t'.name = t.name ∧ rank t'.pc ≤ rank t.pc - 1 :=
+  Step_rank (step_Step w s τ) h
+
+theorem rank_le_four (p : PC) : rank p ≤ 4 := by cases p <;> simp [rank]
+
+theorem rank_zero {p : PC} (h : rank p = 0) : ∃ ok id, p = .done ok id := by
+  cases p with
+  | done ok id => exact ⟨ok, id, rfl⟩
+  | _ => cases h
+
+/-- four own steps finish a load, from any state -/
+theorem block_done (w : World) {s : LState} {τ : Nat} {t : Thread} (h : s.threads[τ]? = some t) :
+    ∃ t' ok id, (run w s [τ, τ, τ, τ]).threads[τ]? = some t' ∧ t'.name = t.name ∧
+      t'.pc = .done ok id := by
+  obtain ⟨t1, h1, n1, r1⟩ := step_rank w h
+  obtain ⟨t2, h2, n2, r2⟩ := step_rank w h1
+  obtain ⟨t3, h3, n3, r3⟩ := step_rank w h2
+  obtain ⟨t4, h4, n4, r4⟩ := step_rank w h3
+  have := rank_le_four t.pc
+  obtain ⟨ok, id, e⟩ := rank_zero (p := t4.pc) (by omega)
+  exact ⟨t4, ok, id, h4, by rw [n4, n3, n2, n1], e⟩
+
+/-- steps of other threads do not touch thread `i` -/
+theorem Step_frame {w : World} {s s' : LState} {τ : Nat} (st : Step w s τ s') {i : Nat} (hi : τ ≠ i) :
+    s'.threads[i]? = s.threads[i]? := by
+  cases st with
+  | idle _ => rfl
+  | doneNoop _ _ _ _ _ => rfl
+  | _ => exact List.getElem?_set_ne hi
+
+theorem step_frame (w : World) (s : LState) {τ i : Nat} (hi : τ ≠ i) :
+    (step w s τ).threads[i]? = s.threads[i]? := Step_frame (step_Step w s τ) hi
+
+end Cctz.Loader
